@@ -323,6 +323,7 @@ class Check:
     rule = ""
     profiles = ("release",)
     evalA_sample = 300
+    order_check = True       # re-run the stream in a shuffled order and demand identical per-case results
     peak = False
     impl_timeout = 600
     model_shard = 1000
@@ -480,6 +481,24 @@ def run_check(chk, tier, replay=None):
             elif not chk.compare(core, model[i]):
                 fails.append((i, prof, "model says %s, implementation says %s" % (model[i][:200], core[:200]), "diff"))
 
+    # 4b. order independence: the same cases once more in a shuffled order (first profile); every result must be the same as
+    # in the generated order - a library function whose answer depends on what was called before on the same thread keeps
+    # state it must not keep (all properties are about functions of their arguments)
+    order_checked = 0
+    if chk.order_check and not replay and len(cases) > 1:
+        prof = chk.profiles[0]
+        perm = list(range(len(cases)))
+        random.Random(seed * 7919 + 13).shuffle(perm)
+        impl2 = run_impl(bins[prof], [lines[i] for i in perm], peak=False, timeout=chk.impl_timeout)
+        flagged = set(f[0] for f in fails)
+        for pos, i in enumerate(perm):
+            a = impl[prof][i].split(" peak=")[0] if chk.peak else impl[prof][i]
+            order_checked += 1
+            if impl2[pos] != a and i not in flagged:
+                prev = lines[perm[pos - 1]] if pos else "(first)"
+                fails.append((i, prof, "result depends on what ran before it on the same thread: %s in generated order, %s after `%s`"
+                              % (a[:160], impl2[pos][:160], prev[:160]), "oracle"))
+
     # 5. classify
     oracle_fails = [f for f in fails if f[3] == "oracle"]
     diffs = [f for f in fails if f[3] == "diff"]
@@ -546,12 +565,12 @@ def run_check(chk, tier, replay=None):
         print("VIOLATION property=%s replay=%s%s" % (pid, p, suffix))
     write_evidence(chk, tier, seed, pr, cases, impl, model, chk.extra_coverage(cases, impl, model),
                    len(violations), time.time() - t0, notes, evalA=len(sample), diffs=len(diffs),
-                   oracle_fails=len(oracle_fails), known=sorted(seen_known))
+                   oracle_fails=len(oracle_fails), known=sorted(seen_known), order_checked=order_checked)
     return 1 if violations else 0
 
 
 def write_evidence(chk, tier, seed, pr, cases, impl, model, extra, nviol, wall, notes, evalA=0, diffs=0,
-                   oracle_fails=0, known=()):
+                   oracle_fails=0, known=(), order_checked=0):
     distinct = {}
     classes = {}
     outcome = {}
@@ -578,6 +597,7 @@ def write_evidence(chk, tier, seed, pr, cases, impl, model, extra, nviol, wall, 
         "profiles": list(chk.profiles),
         "evaluatorA_cases_crosschecked": evalA,
         "model_impl_disagreements": diffs,
+        "cases_rerun_in_shuffled_order": order_checked,
         "oracle_failures": oracle_fails,
         "known_findings_reproduced": list(known),
         "proof_failures": pr["failures"],
